@@ -24,7 +24,7 @@ RULE = (
 ASSUMPTIONS = ["no symlinks; outputs inside the project directory", "a declared output that exists as a directory is not a file in the sense of the property: clean may leave it in place"]
 
 
-QUICK_BUDGET = {"cases": 3200, "deadline_s": 170, "case_timeout_s": 60, "floors": {"clean_runs": 1120, "files_compared": 28965, "remove_events_checked": 3000, "declined_checked": 175, "undeletable_output_cases": 150}}
+QUICK_BUDGET = {"cases": 3200, "deadline_s": 170, "case_timeout_s": 60, "floors": {"clean_runs": 1120, "files_compared": 28965, "remove_events_checked": 3000, "declined_checked": 175, "undeletable_output_cases": 150, "appeared_during_prompt": 45}}
 THOROUGH_FACTOR = 11  # thorough = the same workload with 11x the cases (floors scale along)
 
 
@@ -72,6 +72,7 @@ def gen_case(rng, idx, tier):
         "from": rng.choice(["root", "root", "sub", "elsewhere"]),
         # one declared output exists as a DIRECTORY: os.remove cannot delete it; everything else must still be cleaned
         "dir_pick": rng.randrange(1 << 30) if rng.random() < 0.15 else None,
+        "late_pick": rng.randrange(1 << 30) if rng.random() < 0.5 else None,
     }
 
 
@@ -154,7 +155,28 @@ def run_case(case):
         before = gen.snapshot(proj.base, skip=("sim/",))
         args = pre + ["clean"] + (["--all"] if case["all"] else []) + (["-f"] if case["force"] else []) + case["patterns"]
         env = cli.env_for(proj.simdir, ("slurm",))
-        r = cli.gwf(cwd, args, env, stdin=case["answer"])
+        # sometimes an unprotected output of a selected target that was absent APPEARS while gwf waits at its prompt
+        # (a job finishing meanwhile); confirmed with yes, it exists when the deletion happens and has to go as well
+        late = None
+        if prompt and confirmed and case.get("late_pick") is not None:
+            cand = sorted(p for p in allowed_attempts if not os.path.lexists(p) and os.path.isdir(os.path.dirname(p)))
+            if cand:
+                late = cand[case["late_pick"] % len(cand)]
+        if late is not None:
+
+            def _appear():
+                with open(late, "w") as fh:
+                    fh.write("written while the prompt was waiting\n")
+
+            r = cli.gwf(cwd, args, env, interact={"wait_for": "[y/N]", "then": _appear, "answer": case["answer"]})
+            if getattr(r, "prompt_seen", False):
+                res.mon("appeared_during_prompt")
+                before[os.path.relpath(late, proj.base)] = ("late",)
+                removable.add(late)
+            else:
+                late = None
+        else:
+            r = cli.gwf(cwd, args, env, stdin=case["answer"])
         after = gen.snapshot(proj.base, skip=("sim/",))
         res.mon("clean_runs")
         ctx = {"args": args, "answer": case["answer"], "selected": sorted(selected), "workflow": gen.render_workflow(variant)[:1500]}
